@@ -111,23 +111,63 @@ func typecheckNode(ctx context.Context, node logical.Node, env physical.Environm
 	return physicalNode, mapping, nil
 }
 
-// RunSteps plans sql over a one-table memdb ("m.t") fed by evs and runs it on the calling
-// goroutine under recover. Every output carries Step = index of the input event during whose
-// processing it was emitted; outputs emitted after the last event (end of stream) carry
-// Step = len(evs).
-func RunSteps(ctx context.Context, sql string, fields []physical.SchemaField, timeField int, evs []nodeh.Event, optimize bool) (*nodeh.Planned, []nodeh.Out, nodeh.RunResult, *nodeh.PlanError) {
-	col := &nodeh.Collector{}
-	db := &nodeh.DB{Tables: map[string]*nodeh.Table{"t": {
+// Handle is a planned query over memdb table "m.t" whose source is re-bound on every run: the
+// same materialized plan (Planned.Exec) can be executed several times, with the same or with
+// different scripts, the way octosql itself re-runs a node (the joined side of a LOOKUP JOIN, a
+// subquery evaluated per outer record).
+//
+// Step attribution: every time the scripted source of m.t is started (once per execution of the
+// plan, or once per outer record when the query re-runs the sub-plan itself) it gets the next
+// start number r; an output emitted while event i of that start is processed carries
+// Step = r*Stride + i, outputs emitted after its last event carry r*Stride + len(evs);
+// Stride = len(evs)+1.
+type Handle struct {
+	P      *nodeh.Planned
+	Stride int
+	evs    []nodeh.Event
+	col    *nodeh.Collector
+	starts int
+}
+
+type reSource struct{ h *Handle }
+
+func (r *reSource) Run(ctx execution.ExecutionContext, produce execution.ProduceFn, metaSend execution.MetaSendFn) error {
+	h := r.h
+	base := h.starts * h.Stride
+	h.starts++
+	col := h.col
+	col.SetStep(base)
+	src := &nodeh.ScriptSource{Events: h.evs, AfterEach: func(i int) { col.SetStep(base + i + 1) }}
+	return src.Run(ctx, produce, metaSend)
+}
+
+// PlanSteps plans sql over a memdb holding table "t" (fields, timeField; fed per run) and the
+// given extra tables (static scripts).
+func PlanSteps(ctx context.Context, sql string, fields []physical.SchemaField, timeField int, optimize bool, extra map[string]*nodeh.Table) (*Handle, *nodeh.PlanError) {
+	h := &Handle{}
+	tables := map[string]*nodeh.Table{"t": {
 		Fields:    fields,
 		TimeField: timeField,
-		Source: func() execution.Node {
-			return &nodeh.ScriptSource{Events: evs, AfterEach: func(i int) { col.SetStep(i + 1) }}
-		},
-	}}}
-	p, perr := Plan(ctx, sql, db, optimize)
-	if perr != nil {
-		return nil, nil, nodeh.RunResult{}, perr
+		Source:    func() execution.Node { return &reSource{h: h} },
+	}}
+	for name, t := range extra {
+		tables[name] = t
 	}
+	p, perr := Plan(ctx, sql, &nodeh.DB{Tables: tables}, optimize)
+	if perr != nil {
+		return nil, perr
+	}
+	h.P = p
+	return h, nil
+}
+
+// Run executes the planned query once more over evs, on the calling goroutine under recover,
+// into a fresh collector. Starts reports how often the source of m.t was started.
+func (h *Handle) Run(ctx context.Context, evs []nodeh.Event) ([]nodeh.Out, nodeh.RunResult) {
+	h.evs = evs
+	h.col = &nodeh.Collector{}
+	h.starts = 0
+	h.Stride = len(evs) + 1
 	var res nodeh.RunResult
 	func() {
 		defer func() {
@@ -137,9 +177,23 @@ func RunSteps(ctx context.Context, sql string, fields []physical.SchemaField, ti
 				res.Stack = string(debug.Stack())
 			}
 		}()
-		res.Err = p.Exec.Run(execution.ExecutionContext{Context: ctx, VariableContext: nil}, col.Produce, col.MetaSend)
+		res.Err = h.P.Exec.Run(execution.ExecutionContext{Context: ctx, VariableContext: nil}, h.col.Produce, h.col.MetaSend)
 	}()
-	return p, col.Snapshot(), res, nil
+	return h.col.Snapshot(), res
+}
+
+func (h *Handle) Starts() int { return h.starts }
+
+// RunSteps plans sql over a one-table memdb ("m.t") fed by evs and runs it once. Every output
+// carries Step = index of the input event during whose processing it was emitted; outputs
+// emitted after the last event (end of stream) carry Step = len(evs).
+func RunSteps(ctx context.Context, sql string, fields []physical.SchemaField, timeField int, evs []nodeh.Event, optimize bool) (*nodeh.Planned, []nodeh.Out, nodeh.RunResult, *nodeh.PlanError) {
+	h, perr := PlanSteps(ctx, sql, fields, timeField, optimize, nil)
+	if perr != nil {
+		return nil, nil, nodeh.RunResult{}, perr
+	}
+	outs, res := h.Run(ctx, evs)
+	return h.P, outs, res, nil
 }
 
 // ---------------------------------------------------------------------------------------------
